@@ -199,6 +199,63 @@ fn forge_establish(args: &Value) -> Value {
     }
 }
 
+#[derive(serde::Serialize, serde::Deserialize)]
+struct VecOfScalars(#[serde(with = "zkchannels_crypto::SerializeElement")] Vec<Scalar>);
+
+/// C16: an honest CommitmentProof<G1,1> image whose response-scalar sequence announces and carries one element too many.
+/// The decode runs in THIS process: a panic is the reproduction (the driver observes exit status 101).
+fn array_extra(_args: &Value) -> Value {
+    let mut rng = StdRng::from_seed([3u8; 32]);
+    let params = zkchannels_crypto::pedersen::PedersenParameters::<G1Projective, 1>::new(&mut rng);
+    let b = CommitmentProofBuilder::<G1Projective, 1>::generate_proof_commitments(&mut rng, Message::new([Scalar::from(5u64)]), &[None], &params);
+    let c = ChallengeBuilder::new().with(&b).finish();
+    let proof = b.generate_proof_response(c);
+    let l = layout::layout(&proof);
+    let f = l.fields.iter().find(|f| f.kind == layout::Kind::LenPrefix).expect("length prefix").clone();
+    let mut bytes = l.bytes.clone();
+    bytes[f.off..f.off + 8].copy_from_slice(&2u64.to_le_bytes());
+    bytes.extend_from_slice(&Scalar::from(7u64).to_bytes());
+    eprintln!("decoding {} bytes: {}", bytes.len(), hex(&bytes));
+    let r: Result<CommitmentProof<G1Projective, 1>, _> = bincode::deserialize(&bytes);
+    json!({"reproduced": false, "detail": format!("decode returned {} without panicking", if r.is_ok() { "Ok" } else { "Err" })})
+}
+
+/// C16: the Vec<G> codec fed a length prefix of 2^40 and no elements: pre-allocation from the hint
+fn vec_hint(_args: &Value) -> Value {
+    let mut bytes = (1u64 << 40).to_le_bytes().to_vec();
+    bytes.extend_from_slice(&[0u8; 8]);
+    let r: Result<VecOfScalars, _> = bincode::deserialize(&bytes);
+    json!({"reproduced": false, "detail": format!("decode returned {} without aborting", if r.is_ok() { "Ok" } else { "Err" })})
+}
+
+/// C15/C17: 8 bytes ff..ff as a balance
+fn decode_balance(_args: &Value) -> Value {
+    let r: Result<CustomerBalance, _> = bincode::deserialize(&[0xffu8; 8]);
+    let r2: Result<MerchantBalance, _> = bincode::deserialize(&(1u64 << 63).to_le_bytes());
+    match (r, r2) {
+        (Ok(b), _) => json!({"reproduced": true, "detail": format!("CustomerBalance decoded from ff..ff = {}", b.into_inner())}),
+        (_, Ok(b)) => json!({"reproduced": true, "detail": format!("MerchantBalance decoded 2^63 = {}", b.into_inner())}),
+        _ => json!({"reproduced": false, "detail": "both out-of-range balances rejected at decode time"}),
+    }
+}
+
+/// C17: allow_payment with the wire-reachable amount i64::MIN (panics in PaymentAmount::to_scalar with overflow checks on)
+fn amount_min(_args: &Value) -> Value {
+    let mut w = world(7);
+    let id = cid(&mut w);
+    let ctx = Context::new(b"replay");
+    let (cb, mb) = (CustomerBalance::try_new(100).unwrap(), MerchantBalance::try_new(50).unwrap());
+    let (req, eproof) = Requested::new(&mut w.rng, &w.c, id, mb, cb, &ctx);
+    let (closing, vbs) = w.m.initialize(&mut w.rng, &id, cb, mb, eproof, &ctx).expect("establish");
+    let inactive = req.complete(closing, &w.c).ok().expect("complete");
+    let pt = w.m.activate(&mut w.rng, vbs);
+    let ready = inactive.activate(pt, &w.c).ok().expect("activate");
+    let (_s, start) = ready.start(&mut w.rng, amount(1), &ctx, &w.c).ok().expect("start");
+    let amt: PaymentAmount = bincode::deserialize(&i64::MIN.to_le_bytes()).unwrap();
+    let r = w.m.allow_payment(&mut w.rng, amt, &start.nonce, start.pay_proof, &ctx);
+    json!({"reproduced": false, "detail": format!("allow_payment with amount i64::MIN returned {} without panicking", if r.is_some() { "Some" } else { "None" })})
+}
+
 fn main() {
     let args: Vec<String> = std::env::args().collect();
     let cmd = args.get(1).map(|s| s.as_str()).unwrap_or("");
@@ -206,6 +263,10 @@ fn main() {
     let out = match cmd {
         "unbound-atom" => unbound_atom(&a),
         "forge-establish" => forge_establish(&a),
+        "array-extra" => array_extra(&a),
+        "vec-hint" => vec_hint(&a),
+        "decode-balance" => decode_balance(&a),
+        "amount-min" => amount_min(&a),
         _ => json!({"reproduced": false, "detail": format!("unknown replay command {}", cmd)}),
     };
     let _: Option<Nonce> = None;
